@@ -25,19 +25,19 @@ class ToMarkovModel(Contract):
     def pre(self, ex, st, args):
         g = args["self"]
         a = fresh("a", Atom)
-        return z3.And(wf_graph(g), z3.ForAll([a], z3.Not(g.fields["_E"][a, a])))
+        return z3.And(wf_graph(g), z3.ForAll([a], z3.Not(g.fields["@E"][a, a])))
 
     def snapshot(self, ex, st, args):
         return graph_snapshot(args["self"])
 
     def post(self, ex, st, args, old, result):
-        if not isinstance(result, Obj) or result.fields.get("_directed", True):
+        if not isinstance(result, Obj) or result.fields.get("@directed", True):
             return z3.BoolVal(False)
-        E = old["_E"]
+        E = old["@E"]
         a, b, c = fresh("a", Atom), fresh("b", Atom), fresh("c", Atom)
         moral = lambda x, y: z3.Or(E[x, y], E[y, x], z3.And(x != y, z3.Exists([c], z3.And(E[x, c], E[y, c]))))
-        return {"nodes": z3.ForAll([a], result.fields["_nodes"][a] == old["_nodes"][a]),
-                "edges-are-the-moral-graph": z3.ForAll([a, b], result.fields["_E"][a, b] == moral(a, b)),
+        return {"nodes": z3.ForAll([a], result.fields["@nodes"][a] == old["@nodes"][a]),
+                "edges-are-the-moral-graph": z3.ForAll([a, b], result.fields["@E"][a, b] == moral(a, b)),
                 "frame": z3.And(graph_unchanged(args["self"], old), z3.BoolVal(result is not args["self"]))}
 
 
@@ -63,7 +63,7 @@ class IsClique(Contract):
         from vf.pyvc.engine import Scalar
         if not isinstance(result, Scalar):
             return z3.BoolVal(False)
-        S, E = args["nodes"].mem, old["_E"]
+        S, E = args["nodes"].mem, old["@E"]
         a, b = fresh("a", Atom), fresh("b", Atom)
         return z3.And(result.z == z3.ForAll([a, b], z3.Implies(z3.And(S[a], S[b], a != b), E[a, b])), graph_unchanged(args["self"], old))
 
@@ -71,7 +71,7 @@ class IsClique(Contract):
         from vf.pyvc.lib import PairAA
         done = ghost["done"]
         a, b = fresh("a", Atom), fresh("b", Atom)
-        E = old["_E"]
+        E = old["@E"]
         return z3.And(z3.ForAll([a, b], z3.Implies(done[PairAA.mk(a, b)], E[a, b])), graph_unchanged(args["self"], old))
 
     invariants = property(lambda self: {0: self.inv0})
